@@ -216,6 +216,10 @@ _c("VCtxInterrupt", "ctx", "Any", None, [], _abort, fault="abort")
 # sinks
 _c("VFileSink", "sink", "Float", "Float", [("path", REQ)], _filesink)
 _c("VNullSink", "sink", "Float", "Float", [("tag", "t")], lambda d, w, tag="t": None)
+_c("VNoDocSrc", "source", "NoData", "Float", [("value", 3.0)], lambda d, w, value=3.0: float(value))
+_c("VNoDocSink", "sink", "Float", "Float", [("tag", "t")], lambda d, w, tag="t": None)
+_c("VNoDocProbe", "probe", "Float", None, [("scale", 1.0)], lambda d, w, scale=1.0: d * scale)
+_c("VNoDocOp", "op", "Float", "Float", [("factor", 2.0)], lambda d, w, factor=2.0: d * factor)
 _c("VLedgerSink", "sink", "Float", "Float", [("tag", "t")], lambda d, w, tag="t": None)
 _c("VReplaySrc", "source", "NoData", "Float", [("value", 7.0)], lambda d, w, value=7.0: float(value))
 _c("FloatDataSink", "sink", "Float", "Float", [], lambda d, w: None, recorded=False)
